@@ -377,6 +377,30 @@ def stateful(ctx, rng):
             ctx.violation("decoders-share-state|interleaved-parses-mix", case, f"a: {oa!r} vs {MC.expected(fa)!r}\nb: {ob!r} vs {MC.expected(fb)!r}")
     except Exception as e:
         ctx.violation(f"decoders-share-state|interleaved|{type(e).__name__}", case, repr(e)[:200])
+    # the same bytes decoded under two declared charsets (names are text in the declared charset; file content is bytes)
+    ctx.mon("decoder-state-isolation")
+    for cs in ("utf8", "latin-1", "utf8"):
+        try:
+            got = norm(parse_stream(iter([ba]), b, cs, file_factory=UploadFile))
+        except Exception as e:
+            ctx.violation(f"charset|exception|{type(e).__name__}", {"form": fa, "charset": cs}, repr(e)[:200])
+            continue
+
+        def as_seen(text):
+            if text is None or cs == "utf8" or isinstance(text, MC.AnyText):
+                return text
+            return text.encode("utf-8").decode("latin-1")
+        want = []
+        for p, (name, filename, content, hdrs) in zip(fa["parts"], MC.expected(fa)):
+            if p["filename"] is None and cs != "utf8":
+                try:
+                    content = content.decode("latin-1").encode("utf-8")  # a field's text is decoded with the declared charset, norm() re-encodes it as UTF-8
+                except Exception:
+                    pass
+            want.append((as_seen(name), as_seen(filename), content, hdrs))
+        if [x[:2] for x in got] != [x[:2] for x in want] or [x[2] for x in got if x[1] is not None] != [x[2] for x in want if x[1] is not None]:
+            ctx.violation("charset|names-not-decoded-with-the-declared-charset", {"form": fa, "charset": cs, "kind": "same bytes parsed as utf8, latin-1, utf8"},
+                          f"got {[x[:2] for x in got]!r} want {[x[:2] for x in want]!r}")
     # abandoned parse, then a fresh one with the same boundary
     case = {"form_a": fa, "form_b": fb, "kind": "parse of A abandoned half-way, then B parsed"}
 
